@@ -1,5 +1,5 @@
 From Coq Require Import List Bool Arith ZArith.
-Require Import V.Base.CorrAux V.Base.Matrix V.Base.NdArray V.Usid.ToND V.Usid.Reduce.
+Require Import V.Base.CorrAux V.Base.Matrix V.Base.NdArray V.Usid.ToND V.Usid.Reduce V.Usid.ReduceVals.
 Import ListNotations.
 
 (* observed: in memory Some (shape, flat data) or None when the call raised; on file Some (rows, cols, flat data, sides) or None *)
@@ -35,3 +35,9 @@ Definition check12 (c : case12) : bool :=
   (* the digit-level description of the kept rows / columns (the one the theorems are about) agrees with the matrix-level one *)
   && nat_list_eqb (reduced_cols (transpose2d 0 pos) pred) (reduced_cols_digits szp sop pred)
   && nat_list_eqb (reduced_cols spec sred) (reduced_cols_digits szs sos sred).
+
+(* the VALUES matrix of a rebuilt side: (source indices, source values x 4, reduced dimensions, observed new values x 4), all
+   spectroscopic-shaped (one row per dimension) *)
+Definition case12v := (list (list nat) * list (list Z) * list nat * list (list Z))%type.
+Definition check12v (c : case12v) : bool :=
+  let '(inds, vals, red, obs) := c in Z_list2_eqb (write_reduced_vals inds vals red) obs.
